@@ -27,6 +27,10 @@
                              (a repeated string extension with enforced UTF-8); refuted
                              without that hypothesis (witness below)
      validate_total          the validator never runs out of fuel
+     validate_stack_eq_recursive   the explicit-stack machine of the Go code = the recursive-descent
+                             validator on whole runs (schemas without dangling type indices), so
+                             validate_* hold of the machine: validate_stack_total / _valid_sound_or_FWB4
+                             / _invalid_sound_except_FL1 / _initialized_sound
    _partial / not covered: ValidationUnknown (aberrant message types, resolver failures) and the
    MessageSet item branch (build tag protolegacy) are outside the schema-table model;
    and [ValidationWrongWireType] (only returned by skipField, modelled in Msg/LazyModel.v).
@@ -39,6 +43,7 @@ From Coq Require Import List NArith ZArith Bool.
 From PB Require Import Base.PBytes Wire.WireModel.
 From PB Require Import Msg.MsgSchema Msg.MsgValue Msg.MsgEnc Msg.MsgDec Msg.MsgExample.
 From PB Require Import Msg.ValidateMsgModel Msg.ValidateMsgP Msg.DecTotalP Msg.InitSoundP Msg.ValidateStackP.
+From PB Require Import Msg.ValidateStackRunP.
 Import ListNotations.
 Open Scope N_scope.
 
@@ -107,19 +112,78 @@ Theorem C06_validate_initialized_sound :
 Proof. exact is_validate_initialized_sound. Qed.
 Print Assumptions C06_validate_initialized_sound.
 
-(* The explicit-stack state machine of MessageInfo.validate ([vm_run], executed next to the
-   recursive validator on every case) vs the recursive validator, _partial: proved field by
-   field -- the action the machine takes for one field of a message/group state (skip, push a
-   state, fail) is the recursive step [vr_step], and for one field of a map-entry state it is
-   one iteration of [vr_entry]; its fast paths are protowire.ConsumeVarint.  Missing for
-   [C06_validate_stack_eq_recursive]: the induction over the stack (push = call, pop = return)
-   and the fuel bound; whole-run equality is checked by execution only. *)
-Theorem C06_validate_stack_field_eq_recursive_partial :
+(* The explicit-stack state machine of MessageInfo.validate ([vm_run] / [vm_validate_stack]: a stack of
+   states with endGroup / tail / requiredMask, depth -- on push and ++ on pop, the one/two-byte
+   fast paths for tags and lengths, the unrolled varint skip, fuel 2|b|+2) computes, on WHOLE RUNS,
+   exactly what the recursive-descent validator computes about which the theorems above are
+   proved: same status (Valid / Invalid, never out of fuel) and same [initialized] output, for
+   every schema table without dangling type indices, every recursion limit, message type and
+   input.  Proof (Msg/ValidateStackRunP.v): induction on the depth budget and the input with the
+   stack invariant "a frame = a pending call of the recursive form" (push = call, pop = return;
+   the frame's requiredMask is the recursive loop's list of required numbers seen, a map-entry
+   frame's bit 2 is its value-seen flag), and the step count n + 2|rest| <= 2|b| + 1 per frame
+   that justifies the fuel of the Go-shaped loop.
+   The hypothesis [dt_schema_wf] (every message/group-typed field names an existing table; its
+   boolean form [dt_schema_wfb] is evaluated on every schema of every `val` case of the run,
+   ocaml/fam_dectot.ml, and a table that fails it fails the case) is needed by the MODEL only: on a dangling
+   index the recursive form fails ([nth_error]) while the machine reads an empty table ([nth]);
+   [C06_validate_stack_eq_recursive_needs_wf] is that witness.  The quirk flag (FWB4) is an
+   output of the recursive form only; the machine has no such output. *)
+Theorem C06_validate_stack_eq_recursive :
+  forall (S : schema) (limit tid : nat) (bs : list byte),
+    dt_schema_wf S ->
+    vm_validate_stack S limit tid bs =
+    (fst (fst (vm_validate S limit tid bs)), snd (fst (vm_validate S limit tid bs))).
+Proof. exact vs_stack_eq_recursive. Qed.
+Print Assumptions C06_validate_stack_eq_recursive.
+
+Theorem C06_validate_stack_eq_recursive_needs_wf :
+  exists (S : schema) (limit tid : nat) (bs : list byte),
+    vm_validate_stack S limit tid bs <>
+    (fst (fst (vm_validate S limit tid bs)), snd (fst (vm_validate S limit tid bs))).
+Proof. exact vs_stack_neq_dangling. Qed.
+Print Assumptions C06_validate_stack_eq_recursive_needs_wf.
+
+(* hence the properties of the recursive form are properties of the machine *)
+Theorem C06_validate_stack_total :
+  forall (S : schema) (limit tid : nat) (bs : list byte),
+    dt_schema_wf S -> fst (vm_validate_stack S limit tid bs) <> 0.
+Proof. exact vs_stack_total. Qed.
+Print Assumptions C06_validate_stack_total.
+
+Theorem C06_validate_stack_valid_sound_or_FWB4 :
+  forall (S : schema) (limit tid : nat) (bs : list byte) (initialized : bool),
+    dt_schema_wf S -> vm_validate_stack S limit tid bs = (3, initialized) ->
+    (exists v, msg_decode false S limit tid bs = DOk v) \/ msg_decode false S limit tid bs = DErr DDepth.
+Proof. exact vs_stack_valid_cases. Qed.
+Print Assumptions C06_validate_stack_valid_sound_or_FWB4.
+
+Theorem C06_validate_stack_invalid_sound_except_FL1 :
+  forall (S : schema) (limit tid : nat) (bs : list byte),
+    dt_schema_wf S -> vp_fl1_free S -> fst (vm_validate_stack S limit tid bs) = 2 ->
+    exists e, msg_decode false S limit tid bs = DErr e.
+Proof. exact vs_stack_invalid_sound. Qed.
+Print Assumptions C06_validate_stack_invalid_sound_except_FL1.
+
+Theorem C06_validate_stack_initialized_sound :
+  forall (S : schema) (limit tid : nat) (bs : list byte) (v : value),
+    dt_schema_wf S -> is_schema_ok S ->
+    vm_validate_stack S limit tid bs = (3, true) ->
+    msg_decode false S limit tid bs = DOk v ->
+    msg_check_init S tid v = true.
+Proof. exact vs_stack_initialized_sound. Qed.
+Print Assumptions C06_validate_stack_initialized_sound.
+
+(* the per-field step of that proof, kept as a statement of its own: the action the machine takes
+   for one field of a message/group state (skip, push a state, fail) is the recursive step
+   [vr_step]; its fast paths are protowire.ConsumeVarint.  (Formerly
+   C06_validate_stack_field_eq_recursive_partial, when the induction over runs was open.) *)
+Theorem C06_validate_stack_field_eq_recursive :
   forall (reqof : nat -> bool) (md : mdesc) (vsub : vr_t) (vsub2 : option vr_t) (num typ : N) (r : list byte),
     vs_step_rel reqof md vsub vsub2 num typ r
                 (vm_field_action (vs_vt_of md num) num typ r) (vr_step reqof md vsub vsub2 num typ r).
 Proof. exact vs_step_action. Qed.
-Print Assumptions C06_validate_stack_field_eq_recursive_partial.
+Print Assumptions C06_validate_stack_field_eq_recursive.
 
 Theorem C06_validate_stack_fastpaths :
   forall b : list byte,
@@ -181,3 +245,16 @@ Proof. split; [apply is_schema_okb_spec; vm_compute; reflexivity|]. vm_compute. 
 (* a message without its required field 10 is Valid but not initialized *)
 Example C06_example_partial : vm_validate ex_schema 3 0 [x08; x01] = (3, false, false).
 Proof. vm_compute. reflexivity. Qed.
+(* the hypotheses of the stack-machine theorems hold of the example schema, and the machine gives
+   the recursive form's verdicts on the example inputs (Valid+initialized, Invalid by depth,
+   Valid+partial) *)
+Example C06_example_stack :
+  dt_schema_wf ex_schema /\ is_schema_ok ex_schema /\
+  vm_validate_stack ex_schema 3 0 (msg_encode ex_schema 0 ex_msg) = (3, true) /\
+  vm_validate_stack ex_schema 2 0 (msg_encode ex_schema 0 ex_msg) = (2, false) /\
+  vm_validate_stack ex_schema 3 0 [x08; x01] = (3, false).
+Proof.
+  split; [apply dt_schema_wfb_spec; vm_compute; reflexivity|].
+  split; [apply is_schema_okb_spec; vm_compute; reflexivity|].
+  vm_compute. repeat split; reflexivity.
+Qed.
